@@ -166,7 +166,7 @@ func VerifC16_RefCount() {
 	}
 	uses := func(f, c int) bool { return roles[f][c] != verifC16Absent }
 
-	ci := &ChunkInfo{cp: newChunkPyramid(), traversal: tr}
+	ci := verifC16envNew(boson.NewAddress([]byte{0xee}), &verifC16envStore{}, tr)
 
 	// background reference counts (other known files, not modelled further).
 	// An entry with value 0 is the same as no entry for every kernel function
@@ -210,15 +210,14 @@ func VerifC16_RefCount() {
 			}
 			return n
 		}
-		// --- what DelFile does ---
-		pyr, err := ci.getPyramid(chunks[f])
-		zzverif.Assert(err == nil, "getPyramid succeeds")
-		hashs, err := ci.getPyramidHash(chunks[f])
-		zzverif.Assert(err == nil, "getPyramidHash succeeds")
-		del := ci.GetChunkPyramid(chunks[f]) // = getUnRepeatChunk: the chunks the caller removes from the store
-		_ = ci.getChunkCid(chunks[f])
-		ok := ci.delRootCid(chunks[f], *pyr, *hashs)
-		zzverif.Assert(ok, "delRootCid succeeds")
+		// --- the real DelFile; the caller's callback removes from the store what
+		// GetChunkPyramid (= getUnRepeatChunk) hands out at that moment ---
+		var del []*PyramidCidNum
+		err := ci.DelFile(chunks[f], func() error {
+			del = ci.GetChunkPyramid(chunks[f])
+			return nil
+		})
+		zzverif.Assert(err == nil, "DelFile succeeds")
 		alive[f] = false
 
 		safe, complete, foreign := true, true, true
